@@ -31,7 +31,7 @@ template <class T> static std::basic_string<T> cut_nul(const std::basic_string<T
 }
 
 bool prepare_text(Ctx &c, const Op &op, unsigned kind, uint32_t srcsel, uint32_t n, unsigned modebits, bool single, TextArg &A) {
-    A.kind = kind % SK__COUNT; A.single = single;
+    A.kind = kind % SK__COUNT; A.single = single; A.nonconst_lvalue = (op.d >> 17) & 1;
     switch (modebits & 3) {
     case 1: A.mode = ST::substitute_invalid; A.explicit_mode = true; break;
     case 2: A.mode = ST::assume_valid; A.explicit_mode = true; break;
@@ -175,6 +175,7 @@ bool exec_str_a(Ctx &c, const Op &op) {
         void *mem = obj_alloc(sizeof(ST::string));
         ExcKind ex = run_sut(c, op, [&] { with_arg(A, [&](auto &&...xs) { new (mem) ST::string(std::forward<decltype(xs)>(xs)...); }); });
         throw_probes(c, ex, A, nullptr);
+        c.plain_copy = (A.kind == SK_STR_COPY || A.kind == SK_STR_MOVE);
         if (settle(c, op, ex, A.wf ? 0 : bit(EX_UNICODE))) {
             auto *o = add_str(c, mem); o->role = ROLE_NEW;
             if (A.wf) o->model = A.expect; else o->st = M_ADOPT;
@@ -338,7 +339,8 @@ bool exec_str_a(Ctx &c, const Op &op) {
         c.budget_bytes = A.in_bytes * 3 + dst->model.size();
         if (dst->moved_from) c.touched_moved_from = true;
         if (self) probe(c, PR_SELF_REFERENTIAL);
-        if (self && A.kind == SK_STR_COPY) as_const(dst); else { as_target(dst); note_mutating(c, dst); }
+        // (s = s / s.set(s) is an assignment like any other: the value must be the same afterwards, the storage may legitimately be new)
+        as_target(dst); if (!(self && A.kind == SK_STR_COPY)) note_mutating(c, dst);
         arg_roles(c, A, dst);
         ExcKind ex = run_sut(c, op, [&] {
             ST::string &d = *dst->p();
@@ -352,6 +354,7 @@ bool exec_str_a(Ctx &c, const Op &op) {
             else with_arg(A, [&](auto &&...xs) { d.set(std::forward<decltype(xs)>(xs)...); });
         });
         throw_probes(c, ex, A, dst);
+        c.plain_copy = (A.kind == SK_STR_COPY || A.kind == SK_STR_MOVE);      // "copies are independent deep copies": whatever bytes the source holds
         if (settle(c, op, ex, A.wf ? 0 : bit(EX_UNICODE))) {
             if (self && A.kind == SK_STR_MOVE) dst->st = M_VALID_ONLY;
             else if (!self) {
